@@ -1033,6 +1033,23 @@ func vRunWriteHistory(c *vCase, prop string) {
 					}
 				}
 			}
+			if prop == "C20" && (len(ext) > 0 || dropped > 0) && vChance(r, 0.1) {
+				// a block without samples (a read thrown away for re-alignment, a tick between data packets) still carries
+				// its trigger counts and its drop report
+				sent := append([]int64(nil), ext...)
+				if _, err := w.f.push(0, sent, dropped); err != nil {
+					c.Violate("c06:process-error", "ProcessSegments error on a block without samples: %v", err)
+					return
+				}
+				if w.cur != nil {
+					w.cur.extTrig = append(w.cur.extTrig, ext...)
+					if dropped > 0 {
+						w.cur.drops = append(w.cur.drops, [2]int{int(w.f.lastBlockFirstFrame), dropped})
+					}
+				}
+				c.Cov("blocks_without_samples", 1)
+				continue
+			}
 			ok = w.pushBlock(ext, dropped)
 		}
 		if !ok {
